@@ -29,11 +29,12 @@ PART["C03"] = {
     "assumptions": ["delivery recorded at call entry is conservative (can hide, never invent)", "own partial credited unconditionally"],
 }
 PART["C04"] = {
-    "runs": [{"name": "beaconnet-clocks", "pkg": P, "run": "^TestVF_C04", "timeout": "30m", "timeout_thorough": "120m"}],
+    "runs": [{"name": "beaconnet-clocks", "pkg": P, "run": "^TestVF_C04$", "timeout": "30m", "timeout_thorough": "120m"},
+             {"name": "beaconnet-transition-clocks", "pkg": P, "run": "^TestVF_C04_Reshare$", "timeout": "30m", "timeout_thorough": "120m"}],
     "rule": "handler networks where every node has its own fake clock: constant skews (sub-period drifts, one node one period behind/ahead, one node two periods behind), advance patterns "
             "(regular, bursts of 2-4 periods, stalls followed by jumps, sub-period steps, mixed), restarts with Catchup, catch-up period 0/1 s, and a schedule that parks a slow node's tick handling "
             "(hook handler.tick) until faster peers have moved the chain past its clock round; oracle at the wire tap: the sender's own clock read inside the client call must be >= the harness-computed "
-            "time of the partial's round; valid partials from a corrupted member for rounds > receiver's clock round + 1 must be answered with an error. non-trivial = at least one emission per round",
+            "time of the partial's round; valid partials from a corrupted member for rounds > receiver's clock round + 1 must be answered with an error. non-trivial = at least one emission per round || around resharing: the handler-level transition workload of C07 (remainers switching, joiners in catch-up mode, leavers stopping) with the same timing oracle",
     "assumptions": ["a stamp taken later than the decision can only hide an early emission; clocks are never moved while messages are in flight"],
 }
 PART["C05"] = {
